@@ -215,6 +215,11 @@ impl SmartCalc {
     pub fn get_time_offset(&self) -> TimeOffset {
         self.config.get_time_offset()
     }
+
+    #[cfg(feature = "verif")]
+    pub fn verif_fingerprint(&self) -> String {
+        crate::verif::fingerprint(&self.config)
+    }
     
     pub fn load_from_json(json_data: &str) -> Self {
         SmartCalc {
@@ -292,6 +297,8 @@ impl SmartCalc {
 
     pub(crate) fn execute_text(&self, session: &Session) -> ExecutionLine {
         log::debug!("> {}", session.current_line());
+        #[cfg(feature = "verif")]
+        crate::verif::line(session.current_line());
         if session.current_line().is_empty() {
             return None;
         }
